@@ -12,7 +12,6 @@ ck = verif.Check("C07")
 rng = ck.rng
 pr = ck.prove()
 
-KEY = "sampling-size-lt-total"
 REPO_SRC = ["tlx/algorithm/parallel_multiway_merge.cpp"]
 
 # ------------------------------------------------------------------------------------------------ cases
@@ -32,9 +31,6 @@ def parse(line):
 def goes_parallel(c):
     if not c["seqs"]: return False
     return (not c["fseq"]) and (c["fpar"] or (c["p"] > 1 and len(c["seqs"]) >= c["mink"] and c["size"] >= c["minn"]))
-
-def is_known_config(c):
-    return goes_parallel(c) and c["split"] == 0 and c["size"] < c["total"]
 
 def gen_seqs(rng, k, maxlen, universe, shape):
     seqs = []
@@ -63,6 +59,8 @@ def gen_small_block(rng, out, nsizes_all=True):
             if size == total:
                 for os_ in (1, 2, 10):
                     out.append(mk(rng.below(4), 0, p, os_, rng.below(4), 0, 1, 2, 1000, size, seqs))
+            else:                                                     # MWMSA_SAMPLING on a proper prefix (served by the exact splitter)
+                out.append(mk(rng.below(4), 0, p, rng.choice([1, 2, 10]), rng.below(4), 0, 1, 2, 1000, size, seqs))
 
 def gen_random(rng, out, big):
     k = rng.range(1, 9 if big else 6)
@@ -71,7 +69,7 @@ def gen_random(rng, out, big):
     total = sum(map(len, seqs))
     p = rng.choice(P_ALL)
     split = rng.below(2)
-    if split == 0: size = total
+    if split == 0 and rng.chance(1, 2): size = total
     else: size = rng.choice([total, total, rng.range(0, total), max(0, total - 1), min(total, p - 1), min(total, p), min(total, p + 1)])
     out.append(mk(rng.below(4), split, p, rng.choice([1, 2, 10]), rng.below(4), 0, 1, 2, 1000, size, seqs))
 
@@ -84,12 +82,7 @@ def gen_switch(rng, out):
     p = rng.choice([1, 1, 2, 3, 32])
     fseq = 1 if rng.chance(1, 6) else 0
     fpar = 1 if rng.chance(1, 6) else 0
-    split = 1
-    c = dict(seqs=seqs, fseq=fseq, fpar=fpar, p=p, mink=mink, minn=minn, size=size)
-    if goes_parallel(c) and rng.chance(1, 2):
-        split = 0; size = total; minn = min(minn, size)
-        c["size"] = size; c["minn"] = minn
-        if not goes_parallel(c): split = 1
+    split = rng.below(2)
     out.append(mk(rng.below(4), split, p, rng.choice([1, 2, 10]), rng.below(4), fseq, fpar, mink, minn, size, seqs))
 
 corpus = [l.strip() for l in open(os.path.join(verif.VERIF, "corpus", "C07", "cases.txt")) if l.strip() and not l.startswith("#")]
@@ -104,8 +97,7 @@ else:
     for _ in range(nsw): gen_switch(rng, cases)
 
 parsed = [parse(c) for c in cases]
-known_idx = [i for i, c in enumerate(parsed) if is_known_config(c)]
-main_idx = [i for i, c in enumerate(parsed) if not is_known_config(c)]
+main_idx = list(range(len(parsed)))
 
 # ------------------------------------------------------------------------------------------------ property verdict
 def fields(line):
@@ -152,13 +144,13 @@ def compare_model(c, f, m):
     else:
         if [e[0] for e in triples(f.get("out", ""))] != [e[0] for e in triples(g.get("out", ""))]: return "output keys differ"
     if (c["stable"] or par) and f.get("cur") != g.get("cur"): return "cursors impl=%s model=%s" % (f.get("cur"), g.get("cur"))
-    if par and f.get("fp") == "0" and f.get("win") != g.get("win"): return "thread windows impl=%s model=%s" % (f.get("win"), g.get("win"))
+    if par and (f.get("fp") == "0" or c["split"] == 1 or c["size"] < c["total"]) and f.get("win") != g.get("win"): return "thread windows impl=%s model=%s" % (f.get("win"), g.get("win"))
     return None
 
 # ------------------------------------------------------------------------------------------------ run
 found = False
-stats = {"corpus": len(corpus), "exact": 0, "sampling": 0, "sequential_fallback": 0, "size_lt_total": 0, "size_0": 0,
-         "p_gt_total": 0, "stable": 0, "unstable": 0, "fp_rounding_cases": 0, "known_config_cases": len(known_idx)}
+stats = {"corpus": len(corpus), "exact": 0, "sampling": 0, "sequential_fallback": 0, "sampling_requested_prefix": 0, "size_lt_total": 0, "size_0": 0,
+         "p_gt_total": 0, "stable": 0, "unstable": 0, "fp_rounding_cases": 0}
 distinct = set()
 samples = []
 evaluations = 0
@@ -177,19 +169,6 @@ if exe is None:
 elif drv is None:
     ck.violation("extracted model/driver does not build", {"correspondence": "ocaml/C07_driver.ml", "log": dlog[-2000:]}, no_input=True)
 else:
-    # --- the known-finding configuration: corpus witnesses only, one process each
-    for i in known_idx:
-        c = parsed[i]; evaluations += 1
-        rc, out = run_file(exe, [cases[i]], 10)
-        f = fields(out.splitlines()[0]) if rc == 0 and out.strip() else None
-        what = None
-        if rc == 124: what = "does not terminate"
-        elif rc != 0: what = "crashes under ASan/UBSan"
-        else: what = property_verdict(c, f)
-        if what is not None:
-            found = True
-            ck.violation("parallel path, sampling splitting, size < total: " + what,
-                         {"case": cases[i], "log_tail": out[-1500:] if rc != 0 else out.strip()[:400]}, key=KEY)
     # --- everything else
     todo = [cases[i] for i in main_idx]; tp = [parsed[i] for i in main_idx]
     rc2, out2 = run_file(drv, todo, 3000)
@@ -199,37 +178,44 @@ else:
     else:
         impl = []
         start = 0; crashes = 0
-        while start < len(todo):
-            rc1, out1 = run_file(exe, todo[start:], 2400)
+        BATCH = 400
+        while start < len(todo) and crashes < 3:
+            batch = todo[start:start + BATCH]
+            rc1, out1 = run_file(exe, batch, 60)
             lines = [l for l in out1.splitlines() if l.startswith("ret=") or l == "BAD-CASE"]
-            if rc1 == 0 and len(lines) == len(todo) - start:
-                impl += lines; break
-            # crash / hang: the offending case is the first one without an output line
+            if rc1 == 0 and len(lines) == len(batch):
+                impl += lines; start += len(batch); continue
+            # crash / hang: the offending case is the first one of the batch without an output line
+            lines = lines[:len(batch)]
             impl += lines
             bad = start + len(lines)
-            if bad >= len(todo):
-                break
-            r, o = run_file(exe, [todo[bad]], 20)
+            if bad >= len(todo): break
+            r, o = run_file(exe, [todo[bad]], 15)
             found = True; crashes += 1
-            ck.violation("real parallel_multiway_merge %s on a valid input" % ("does not terminate" if r == 124 else "crashes under ASan/UBSan"),
-                         {"case": todo[bad], "log_tail": (o if r != 0 else out1)[-2500:]})
+            if r == 0:
+                # not reproducible alone: report the batch
+                ck.violation("real parallel_multiway_merge harness failed in a batch (rc=%d) but not on the single case" % rc1,
+                             {"case": todo[bad], "log_tail": out1[-2500:]})
+            else:
+                ck.violation("real parallel_multiway_merge %s on a valid input" % ("does not terminate" if r == 124 else "crashes under ASan/UBSan"),
+                             {"case": todo[bad], "log_tail": o[-2500:]})
             impl.append("CRASH")
             start = bad + 1
-            if crashes >= 3: break
         for idx, (line, c) in enumerate(zip(todo, tp)):
             if idx >= len(impl): break
             evaluations += 1
             par = goes_parallel(c)
             if not par: stats["sequential_fallback"] += 1
             elif c["split"] == 1: stats["exact"] += 1
-            else: stats["sampling"] += 1
+            elif c["size"] == c["total"]: stats["sampling"] += 1
+            else: stats["sampling_requested_prefix"] += 1
             if c["size"] < c["total"]: stats["size_lt_total"] += 1
             if c["size"] == 0: stats["size_0"] += 1
             if c["p"] > c["total"]: stats["p_gt_total"] += 1
             stats["stable" if c["stable"] else "unstable"] += 1
             if impl[idx] == "CRASH": continue
             f = fields(impl[idx])
-            if f.get("fp") == "1": stats["fp_rounding_cases"] += 1
+            if f.get("fp") == "1" and c["split"] == 0 and c["size"] == c["total"]: stats["fp_rounding_cases"] += 1
             v = property_verdict(c, f)
             if v is not None:
                 found = True
@@ -243,7 +229,7 @@ else:
                 if ck.violations >= 4: break
                 continue
             if par and f.get("win", "").count("+") >= 2: distinct.add(line)
-        pick = [0, len(corpus) - len(known_idx), len(todo) // 2, len(todo) - 1]
+        pick = [0, len(corpus), len(todo) // 2, len(todo) - 1]
         samples = [{"case": todo[i], "impl": impl[i][:300], "model": model[i][:300]} for i in pick if i < len(impl) and i < len(todo)]
 
     # --- ThreadSanitizer run (thorough tier): same harness, a slice of the parallel cases
@@ -273,14 +259,14 @@ if pr is not None and not pr["ok"]:
 ck.finish({
     "evaluations": evaluations,
     "distinct_nontrivial": len(distinct),
-    "rule": "corpus first (witnesses of every defect found), then: small inputs (<= 6 sequences, lengths <= 7, 1..6 distinct keys, empties) x EVERY size 0..total x thread counts {1,2,3,total-1,total,total+1,32,random} x exact splitting, plus sampling splitting (oversampling 1,2,10) at size = total; random inputs up to 9 sequences x 200 elements with threads 1..32 and sizes at total, total-1, p-1, p, p+1, random; switch cases around minimal_k / minimal_n / force flags on all four entry points and all four merge algorithms. Each case runs on the real entry points (real threads, logging output iterator over a buffer of exactly `size` elements, ASan+UBSan) and on the extracted Coq model; compared: returned end, cursors, output (element identities for the stable variants, keys for the unstable ones), per-thread output windows, exactly-once verdict. Independently the implementation's result is judged against the property by a Python reference (sort by (key, sequence, position)). non-trivial = parallel path taken and at least two different threads wrote output; distinct = distinct case text. Sampling splitting with size < total on the parallel path is the known finding `sampling-size-lt-total`: only its corpus witnesses are run (one process each).",
+    "rule": "corpus first (witnesses of every defect found), then: small inputs (<= 6 sequences, lengths <= 7, 1..6 distinct keys, empties) x EVERY size 0..total x thread counts {1,2,3,total-1,total,total+1,32,random} x both splitting requests (sampling with oversampling 1,2,10); random inputs up to 9 sequences x 200 elements with threads 1..32 and sizes at total, total-1, p-1, p, p+1, random; switch cases around minimal_k / minimal_n / force flags on all four entry points and all four merge algorithms. Each case runs on the real entry points (real threads, logging output iterator over a buffer of exactly `size` elements, ASan+UBSan) and on the extracted Coq model; compared: returned end, cursors, output (element identities for the stable variants, keys for the unstable ones), per-thread output windows, exactly-once verdict. Independently the implementation's result is judged against the property by a Python reference (sort by (key, sequence, position)). non-trivial = parallel path taken and at least two different threads wrote output; distinct = distinct case text. MWMSA_SAMPLING with size < total is generated freely (every size of the small inputs, half of the random sampling cases): the repaired code serves it with the exact splitter and so does the model.",
     "samples": samples,
     "input_distribution": stats,
     "exhaustive": False,
     "tsan": tsan_note,
 }, assumptions=[
     "multisequence_partition (C08) and the sequential multiway_merge_base (C05) enter the theorems as hypotheses (their specifications); the extracted model instantiates them with reference implementations read off the tagged stable merge",
-    "/repo must contain the C08 tie-rule repair (lexicographic (value, sequence) comparison in multisequence_partition) and fixes/C07/01,02",
+    "/repo contains the C08 tie-rule repair, fixes/C07/01,02 and the dispatch 'MWMSA_SAMPLING with size < total uses exact splitting' (all committed as fix: commits); the model is the repaired behaviour, the shipped selection survives as pmwm_base_shipped with its refutation lemma",
     "sample index of the sampling splitter is modelled by the exact integer floor; cases where the C++ double arithmetic rounds differently (flag fp=1, counted in input_distribution.fp_rounding_cases) are compared on everything except the per-thread windows",
     "std::sort/std::stable_sort of the samples and std::upper_bound are modelled by their specification",
     "data races at the C++ level are outside the model: supported by the exactly-once writer log on every case and by ThreadSanitizer in the thorough tier",
